@@ -165,8 +165,6 @@ def make_fault_verifier(fail_at):
     # every registered check must see every node of its category, whatever its position
     fv.extra_seen = {}
     for cat in fv.categories:
-        if cat == "uncategorized":
-            continue
 
         def extra(a, b, node, _cat=cat):
             fv.extra_seen[_cat] = fv.extra_seen.get(_cat, 0) + 1
@@ -175,7 +173,8 @@ def make_fault_verifier(fail_at):
             return Ok(())
 
         extra.__name__ = "fcpmc_extra_" + cat
-        fv.register(extra, cat)
+        # 'uncategorized' is what register() files a check under when no category is given (the documented default)
+        fv.register(extra, None if cat == "uncategorized" else cat)
     return fv
 
 
@@ -277,12 +276,13 @@ def make_worker(tier):
 
                     tree = _p(text, _L({})).unwrap()
                     for cat, seen in sorted(fv.extra_seen.items()):
-                        want = len(list(tree.get(cat).unwrap()))
+                        want = 1 if cat == "uncategorized" else len(list(tree.get(cat).unwrap()))
                         if seen != want:
                             S.violation("C10.gate", "C10.gate/registered-check-not-run-on-every-node/%s" % cat, inp, expected={"category": cat, "nodes": want}, actual={"evaluations_of_the_last_check": seen})
                     for cat in fv.categories:
-                        if cat != "uncategorized" and cat not in fv.extra_seen and len(list(tree.get(cat).unwrap())):
-                            S.violation("C10.gate", "C10.gate/registered-check-not-run-on-every-node/%s" % cat, inp, expected={"category": cat, "nodes": len(list(tree.get(cat).unwrap()))}, actual={"evaluations_of_the_last_check": 0})
+                        nodes = 1 if cat == "uncategorized" else len(list(tree.get(cat).unwrap()))
+                        if cat not in fv.extra_seen and nodes:
+                            S.violation("C10.gate", "C10.gate/registered-check-not-run-on-every-node/%s" % cat, inp, expected={"category": cat, "nodes": nodes}, actual={"evaluations_of_the_last_check": 0})
                 elif kind == "fault":
                     if fv.fired is None:
                         S.violation("harness", "harness/fault-point-not-reached", inp, actual={"evals": fv.evals, "k": k})
